@@ -68,6 +68,10 @@ func (ex *Exec) strBytes(s Str) []*Term {
 			}
 		}
 		ex.noteAssumption("EIP-55 letter case of Address.Hex() is an uninterpreted function of the address")
+		if ex.hexExp == nil {
+			ex.hexExp = map[string]*Enc{}
+		}
+		ex.hexExp[termsKey(out)] = s.Enc
 		return out
 	}
 	panic(engineErr("bytes of an abstract " + s.Enc.Kind + " string are not expressible"))
@@ -95,6 +99,11 @@ func (ex *Exec) cmpGroups(a, b []*Term, eq func(x, y *Term) *Term, _ bool) *Term
 	var cs []*Term
 	i := 0
 	for i < len(a) {
+		if pe := ex.hashPairAt(a, b, i); pe != nil {
+			cs = append(cs, pe)
+			i += 32
+			continue
+		}
 		if ra, rb, n := byteRunAt(a, i), byteRunAt(b, i), 0; ra != nil && rb != nil {
 			n = ra.n
 			if rb.n == n && ra.start == rb.start && ra.width == rb.width && n > 1 {
@@ -156,6 +165,65 @@ func (ex *Exec) runValue(r *run) *Term {
 	return f.Mod(t, f.Int(pow256(r.n)))
 }
 
+// hashAt: is bs[i:i+32] exactly the digest of a modelled hash?
+func (ex *Exec) hashAt(bs []*Term, i int) *hashEntry {
+	if i+32 > len(bs) || len(ex.hashes) == 0 {
+		return nil
+	}
+	for _, h := range ex.hashes {
+		if len(h.outs) != 32 || h.outs[0] != bs[i] {
+			continue
+		}
+		ok := true
+		for k := 0; k < 32; k++ {
+			if h.outs[k] != bs[i+k] {
+				ok = false
+				break
+			}
+		}
+		if ok {
+			return h
+		}
+	}
+	return nil
+}
+
+// hashPairAt: when two digests of the same hash function face each other, instantiate injectivity for the
+// pair (digests equal iff pre-images equal) and return the pre-image equality.
+func (ex *Exec) hashPairAt(a, b []*Term, i int) *Term {
+	ha := ex.hashAt(a, i)
+	if ha == nil {
+		return nil
+	}
+	hb := ex.hashAt(b, i)
+	if hb == nil || ha.fn != hb.fn {
+		return nil
+	}
+	if ha == hb {
+		return ex.tf.True
+	}
+	k := [2]int{ha.id, hb.id}
+	if k[0] > k[1] {
+		k[0], k[1] = k[1], k[0]
+	}
+	if ex.hashAx == nil {
+		ex.hashAx = map[[2]int]*Term{}
+	}
+	if pe, ok := ex.hashAx[k]; ok {
+		return pe
+	}
+	f := ex.tf
+	ex.hashAx[k] = f.False // guard against recursion through nested digests
+	pe := ex.bytesEq(ha.pre, hb.pre)
+	ex.hashAx[k] = pe
+	var outEq []*Term
+	for j := 0; j < 32; j++ {
+		outEq = append(outEq, f.Eq(ha.outs[j], hb.outs[j]))
+	}
+	ex.assume(f.Eq(f.And(outEq...), pe))
+	return pe
+}
+
 // bytesLess: lexicographic a < b (or <= when orEq).
 func (ex *Exec) bytesLess(a, b []*Term, orEq bool) *Term {
 	f := ex.tf
@@ -170,6 +238,7 @@ func (ex *Exec) bytesLess(a, b []*Term, orEq bool) *Term {
 		n = len(b)
 	}
 	for i < n {
+		ex.hashPairAt(a[:n], b[:n], i) // instantiate injectivity when digests are ordered against each other
 		ra, rb := byteRunAt(a[:n], i), byteRunAt(b[:n], i)
 		if ra != nil && rb != nil && ra.n == rb.n && ra.start == rb.start && ra.width == rb.width && ra.n > 1 {
 			ta, tb := ex.runValue(ra), ex.runValue(rb)
@@ -199,6 +268,15 @@ func (ex *Exec) bytesLess(a, b []*Term, orEq bool) *Term {
 // bytesCompare returns an Int term in {-1,0,1}.
 func (ex *Exec) bytesCompare(a, b []*Term) *Term {
 	f := ex.tf
+	if len(a) == 42 && len(b) == 42 && ex.hexExp != nil {
+		if ea, ok := ex.hexExp[termsKey(a)]; ok {
+			if eb, ok := ex.hexExp[termsKey(b)]; ok {
+				lt := ex.bechLess(ea, eb, false)
+				eq := ex.bytesEq(ea.Data, eb.Data)
+				return f.Ite(lt, f.I64(-1), f.Ite(eq, f.I64(0), f.I64(1)))
+			}
+		}
+	}
 	lt := ex.bytesLess(a, b, false)
 	if lt.IsConst() && lt.B {
 		return f.I64(-1)
@@ -283,6 +361,10 @@ func (ex *Exec) tryValEq(a, b Value) (t *Term, ok bool) {
 }
 
 func (ex *Exec) strLess(a, b Str, orEq bool) *Term {
+	if a.Enc != nil && b.Enc != nil && a.Enc.Kind == "hex" && b.Enc.Kind == "hex" {
+		// order of two checksummed addresses: abstracted to an arbitrary strict total order (rank) over the address
+		return ex.bechLess(a.Enc, b.Enc, orEq)
+	}
 	if (a.Enc != nil && a.Enc.Kind != "hex") || (b.Enc != nil && b.Enc.Kind != "hex") {
 		// bech32 text order: an uninterpreted strict total order consistent with equality
 		if a.Enc != nil && b.Enc != nil && a.Enc.Kind == b.Enc.Kind {
@@ -319,7 +401,7 @@ func (ex *Exec) bechRank(e *Enc) *Term {
 		ex.assume(f.Eq(f.Eq(r, o.rank), ex.bytesEq(e.Data, o.data)))
 	}
 	ex.ranks[key] = &rankEntry{kind: e.Kind, data: e.Data, rank: r}
-	ex.noteAssumption("lexicographic order of bech32 strings is an uninterpreted strict total order over the address bytes")
+	ex.noteAssumption("lexicographic order of two bech32 / two EIP-55 hex address strings is abstracted to an arbitrary strict total order over the address bytes (over-approximation)")
 	return r
 }
 
